@@ -273,7 +273,11 @@ pub fn value_as_tree(v: &V) -> Option<T> {
                 .map(|(k, v)| Some((T::Lit(V::Str(k.clone())), value_as_tree(v)?)))
                 .collect::<Option<Vec<_>>>()?,
         ),
-        V::Type(n) => T::Id(n.clone()),
+        V::Type(n) => match n.as_str() {
+            "bool" | "int" | "uint" | "float" | "string" | "bytes" | "type" | "timestamp" | "duration" | "dyn" => T::Id(n.clone()),
+            "null" => T::Id("null_type".to_string()),
+            _ => return None,
+        },
         _ => return None,
     })
 }
